@@ -146,7 +146,44 @@ def sequence_add_rule(ctx, R):
            "the sum must own its code array; the code computes " + shown, f.lineno)
 
 
+def common_alphabet_rule(ctx, rule):
+    """`common_alphabet(alphabets)` answers an alphabet of the list that EXTENDS every one of them (codes of each mean the same symbols
+    in it), or None.  By ways through the loop: the candidate is kept only where it extends the next alphabet, replaced only by an
+    alphabet that extends it (or when there is none yet), and any other way gives up"""
+    from .. import machine
+    f = ctx.src(ALPH).func("common_alphabet")
+    lps = [st for st in f.body if isinstance(st, ast.For)]
+    ctx.need(len(lps) == 1 and isinstance(lps[0].target, ast.Name), "the loop of common_alphabet")
+    lp = lps[0]
+    item = lp.target.id
+    tracked = machine.assigned_names(lp)
+    ctx.need(len(tracked) == 1, "one candidate in common_alphabet")
+    cand = next(iter(tracked))
+    from ..exprnorm import canon as _canon
+    k_none = repr(_canon(ast.parse(f"{cand} is None", mode="eval").body))
+    k_keep = repr(_canon(ast.parse(f"{cand}.extends({item})", mode="eval").body))
+    k_take = repr(_canon(ast.parse(f"{item}.extends({cand})", mode="eval").body))
+    bad = []
+    for w in machine.ways(lp.body, tracked):
+        if w.exit is not None and w.exit != "return None":
+            bad.append(f"leaves with `{w.exit}`")
+        elif w.exit == "return None":
+            continue
+        elif w.updates == (f"{cand} = {item}",):
+            if k_none not in w.conds and k_take not in w.conds:
+                bad.append(f"takes `{item}` without `{item}.extends({cand})`")
+        elif not w.updates:
+            if k_keep not in w.conds:
+                bad.append(f"keeps `{cand}` without `{cand}.extends({item})`")
+        else:
+            bad.append(f"does {w.updates}")
+    ctx.ob(rule, ALPH, "common_alphabet", f"kept under {cand}.extends({item}), replaced under {item}.extends({cand})", not bad,
+           "a way through the loop " + "; ".join(bad) + ": the answer need not extend every alphabet of the list (codes of the others would "
+           "be read as other symbols)", lp.lineno)
+
+
 def run(ctx):
+    common_alphabet_rule(ctx, "R3.common-alphabet-extends-all")
     sequence_add_rule(ctx, "R5")
     t = ctx.src(TYPES)
     nuc = t.cls("NucleotideSequence")
@@ -669,6 +706,7 @@ def shallow_copy_mutation(ctx, rule, rels):
 
 
 MUTANTS = [
+    Mutant("common-alphabet-by-length", ALPH, "        elif not common_alphabet.extends(alphabet):\n", "        elif len(alphabet) > len(common_alphabet):\n", "R3.common-alphabet-extends-all"),
     Mutant("setitem-python-int-only", SEQ, "        if isinstance(index, numbers.Integral):\n            # Expect a single symbol\n", "        if isinstance(index, int):\n            # Expect a single symbol\n",
            "R6.integer-test-accepts-numpy", "Sequence.__setitem__"),
     Mutant("regress-codon-table-int", CODON, "        elif isinstance(item, Integral):\n            # Code for amino acid", "        elif isinstance(item, int):\n            # Code for amino acid",
